@@ -97,5 +97,20 @@ std::string run_p5r0(const Case& c)
   return "D " + describe(d) + " | C " + describe(s) + " | O " + describe(o);
 }
 
+// probe 6: span::crbegin()/crend()
+template <class Long = long>     // a template so that only probe6.cc instantiates it
+std::string run_p6crit(const Case& c)
+{
+  LL n = c.num("n"), o0 = c.num("o"), len = c.num("len");
+  std::vector<long> store(n + 1);
+  for (std::size_t k = 0; k < store.size(); ++k) store[k] = 1000 + long(k);
+  DS::span<Long> s(store.data() + o0, std::size_t(len));
+  DS::span<const Long, 3> t(store.data() + o0, 3);
+  VL r, r3;
+  for (auto it = s.crbegin(); it != s.crend(); ++it) r.push_back(*it);
+  for (auto it = t.crbegin(); it != t.crend(); ++it) r3.push_back(*it);
+  return "rv=" + join(r) + " rv3=" + join(r3) + " n=" + ts(LL(s.crend() - s.crbegin()));
+}
+
 } // namespace c14
 #endif
